@@ -1,11 +1,188 @@
-/- Driver for C08 (stub — not built yet) -/
+/-
+Driver for C08: replays a transcript of gate / connect / walk / send operations through the gate
+model (`Gate.connect`, `Gate.pathIter`, `Gate.send`, … of Model/Gate.lean) and the abstract path
+specification (`Paths.connect`, `Paths.walkFrom` of Spec/Paths.lean) — the definitions the theorems
+of Props/C08.lean are about.
+-/
+import Desverif.Model.Gate
+import Desverif.Spec.Paths
 import Driver.Common
 namespace Driver.C08
-open Driver
+open Driver Gate
+
+/-- `g12` → 12, `m3` → 3 -/
+def ident (pre : Char) (s : String) : Option Nat :=
+  match s.toList with
+  | c :: rest => if c = pre then (String.ofList rest).toNat? else none
+  | [] => none
+
+def gname (g : Nat) : String := s!"g{g}"
+def optG : Option Nat → String
+  | some g => gname g
+  | none => "none"
+def optCh : Option Nat → String
+  | some d => toString d
+  | none => "none"
+
+def listOr (e : String) (l : List String) : String := if l.isEmpty then e else ",".intercalate l
+
+structure St where
+  n : Nat                                   -- gate ids are < n (fuel of the walks)
+  net : Net := Net.empty
+  sp : Paths.State
+  owner : List (Nat × Nat) := []            -- gate ↦ module
+  links : List (Nat × Nat × Option Nat) := []   -- declared channel of every effective link (spec side)
+
+def St.ownerOf (st : St) (g : Nat) : Nat := ((st.owner.find? (·.1 == g)).map (·.2)).getD 0
+
+def St.linkChan (st : St) (a b : Nat) : Option Nat :=
+  ((st.links.find? fun l => (l.1 == a && l.2.1 == b) || (l.1 == b && l.2.1 == a)).map (·.2.2)).getD none
+
+/-- the walk line the model predicts -/
+def modelWalk (st : St) (g : Nat) : String :=
+  let k := match kind st.net g with
+    | .standalone => "standalone" | .endpoint => "endpoint" | .transit => "transit"
+  let (path, prev) := match pathIter st.net st.n g with
+    | none => ("none", "none")
+    | some l =>
+      (listOr "empty" (l.map fun (c : Conn) => s!"{gname c.peer}:{optCh c.chan}"),
+       listOr "empty" (l.map fun (c : Conn) => optG (prevHop st.net c)))
+  s!"kind={k} next={optG (nextGate st.net st.n g)} end={optG (pathEnd st.net st.n g)} path={path} prev={prev}"
+
+/-- the walk line the specification predicts -/
+def specWalk (st : St) (g : Nat) : String :=
+  match Paths.walkFrom st.sp g with
+  | none => "kind=transit next=none end=none path=none prev=none"
+  | some rest =>
+    let gates := g :: rest
+    let pairs := gates.zip rest
+    let k := if rest.isEmpty then "standalone" else "endpoint"
+    s!"kind={k} next={optG rest.head?} end={optG rest.getLast?} path={listOr "empty" (pairs.map fun p => s!"{gname p.2}:{optCh (st.linkChan p.1 p.2)}")} prev={listOr "empty" (pairs.map fun p => gname p.1)}"
+
+def mname (m : Nat) : String := s!"m{m}"
+
+def modelSend (st : St) (g at_ delay : Nat) : String :=
+  match send st.net st.ownerOf (fun _ => true) (st.n + 1) g (at_ + delay) with
+  | .handled m t last true => s!"n=1 rx={mname m} t={t} sender={mname (st.ownerOf g)} receiver={mname m} last={optG last}"
+  | .handled .. => "n=0"
+  | .dropped .. => "n=0"
+  | .outOfFuel => "out-of-fuel"
+  | .sendPanic => "skipped-transit"
+
+def specSend (st : St) (g at_ delay : Nat) : String :=
+  match Paths.walkFrom st.sp g with
+  | none => "skipped-transit"
+  | some rest =>
+    let gates := g :: rest
+    let d := ((gates.zip rest).map fun p => (st.linkChan p.1 p.2).getD 0).sum
+    let far := (gates.getLast?).getD g
+    s!"n=1 rx={mname (st.ownerOf far)} t={at_ + delay + d} sender={mname (st.ownerOf g)} receiver={mname (st.ownerOf far)} last={gname far}"
+
+structure Stats where
+  links : Nat := 0
+  noops : Nat := 0
+  panics : Nat := 0
+  rings : Nat := 0
+  walks : Nat := 0
+  sends : Nat := 0
+  maxhops : Nat := 0
+  multihopSends : Nat := 0
+  delayed : Nat := 0
+
+def maxGate (body : List String) : Nat := Id.run do
+  let mut n := 0
+  for line in body do
+    match words (splitArrow line).1 with
+    | "gate" :: g :: _ => if let some j := ident 'g' g then n := max n (j + 1)
+    | _ => pure ()
+  return n
+
+def runCase (c : Case) : String := Id.run do
+  let h := words c.header
+  let id := (h[1]?).getD "?"
+  let n := maxGate c.body
+  let mut st : St := { n := n, sp := Paths.init n }
+  let mut s : Stats := {}
+  let mut i := 0
+  -- sends happen when the simulation runs, i.e. after every build-time line
+  let isSend := fun (l : String) => l.startsWith "send "
+  for line in c.body.filter (fun l => !isSend l) ++ c.body.filter isSend do
+    if line.startsWith "end" then
+      if line != "end" then return s!"fail {id} op={i} kind=reject clause=run-failed impl=[{line}]"
+      continue
+    i := i + 1
+    let (lhs, rhs) := splitArrow line
+    let l := words lhs
+    let impl := rhs.trimAscii.toString
+    match l with
+    | ["mod", _] => pure ()
+    | "gate" :: g :: rest =>
+      match ident 'g' g, (kv rest "mod").bind (ident 'm') with
+      | some g, some m => st := { st with owner := (g, m) :: st.owner }
+      | _, _ => return s!"fail {id} op={i} kind=badline detail=[{line}]"
+    | ["connect", a, b, ch] =>
+      match ident 'g' a, ident 'g' b with
+      | some a, some b =>
+        let ch := ((ch.splitOn "=")[1]?).bind String.toNat?
+        let (exp, sp') := Paths.connect st.sp a b
+        let specAns := match exp with
+          | .noop | .linked => "ok"
+          | _ => "panic"
+        let (modelAns, net', effective) := match connect st.net a b ch with
+          | .ok net' => ("ok", net', !(st.net a).hasPeer b)
+          | .error _ => ("panic", st.net, false)
+        if impl != specAns then
+          return s!"fail {id} op={i} kind=reject line=[{lhs}] spec={specAns} model={modelAns} impl={impl}"
+        if impl != modelAns then
+          return s!"fail {id} op={i} kind=diverge line=[{lhs}] spec={specAns} model={modelAns} impl={impl}"
+        if effective != (exp == .linked) then
+          return s!"fail {id} op={i} kind=diverge line=[{lhs}] detail=model-and-spec-disagree-on-linking spec={repr exp}"
+        if exp == .linked then
+          s := { s with links := s.links + 1 }
+          if sp'.rings.length != st.sp.rings.length then s := { s with rings := s.rings + 1 }
+          st := { st with links := (a, b, ch) :: st.links }
+        else if exp == .noop then s := { s with noops := s.noops + 1 }
+        else s := { s with panics := s.panics + 1 }
+        st := { st with net := net', sp := sp' }
+      | _, _ => return s!"fail {id} op={i} kind=badline detail=[{line}]"
+    | ["walk", g] =>
+      match ident 'g' g with
+      | some g =>
+        let sw := specWalk st g
+        let mw := modelWalk st g
+        s := { s with walks := s.walks + 1 }
+        if impl != sw then
+          return s!"fail {id} op={i} kind=reject line=[{lhs}] spec=[{sw}] model=[{mw}] impl=[{impl}]"
+        if impl != mw then
+          return s!"fail {id} op={i} kind=diverge line=[{lhs}] spec=[{sw}] model=[{mw}] impl=[{impl}]"
+        match Paths.walkFrom st.sp g with
+        | some rest => s := { s with maxhops := max s.maxhops rest.length }
+        | none => pure ()
+      | none => return s!"fail {id} op={i} kind=badline detail=[{line}]"
+    | "send" :: _ :: rest =>
+      match (kv rest "gate").bind (ident 'g'), kvNat rest "at", kvNat rest "delay" with
+      | some g, some at_, some delay =>
+        let ss := specSend st g at_ delay
+        let ms := modelSend st g at_ delay
+        s := { s with sends := s.sends + 1 }
+        if impl != ss then
+          return s!"fail {id} op={i} kind=reject line=[{lhs}] spec=[{ss}] model=[{ms}] impl=[{impl}]"
+        if impl != ms then
+          return s!"fail {id} op={i} kind=diverge line=[{lhs}] spec=[{ss}] model=[{ms}] impl=[{impl}]"
+        match Paths.walkFrom st.sp g with
+        | some rest =>
+          if rest.length ≥ 2 then s := { s with multihopSends := s.multihopSends + 1 }
+          if delay > 0 then s := { s with delayed := s.delayed + 1 }
+        | none => pure ()
+      | _, _, _ => return s!"fail {id} op={i} kind=badline detail=[{line}]"
+    | _ => return s!"fail {id} op={i} kind=badline detail=[{line}]"
+  -- non-trivial: a chain of >= 3 hops was walked and a message crossed >= 2 hops
+  let nt := s.maxhops ≥ 3 && s.multihopSends ≥ 1 && s.links ≥ 3
+  return s!"ok {id} nt={if nt then 1 else 0} ops={i} links={s.links} noops={s.noops} panics={s.panics} rings={s.rings} walks={s.walks} sends={s.sends} multihop={s.multihopSends} delayed={s.delayed} maxhops={s.maxhops}"
 
 def main (stdin : IO.FS.Stream) : IO Unit := do
   let cases ← readCases stdin
   for c in cases do
-    IO.println s!"fail {(words c.header)[1]?.getD "?"} op=0 kind=unimplemented"
+    IO.println (runCase c)
 
 end Driver.C08
